@@ -6,7 +6,9 @@ SRCS = ["network/network_read.c", "network/network_write.c",
         "events/events_network_selectstats.c", "events/events_timer.c",
         "datastruct/elasticarray.c", "datastruct/ptrheap.c", "datastruct/timerqueue.c",
         "util/monoclock.c", "util/warnp.c"]
-# netbuf_read.c and netbuf_write.c are #included by the harness (white box)
+# netbuf_read.c and netbuf_write.c are #included by the harness (white box); the black-box fallback
+# (harness/h_netbuf.c -DHC_BLACKBOX, netbuf.h only) compiles them separately
+BB_SRCS = ["netbuf/netbuf_read.c", "netbuf/netbuf_write.c"]
 LDFLAGS = ["-Wl,--wrap=recv,--wrap=send,--wrap=poll"]
 EXTRA = ["-U_FORTIFY_SOURCE"]
 MODULES = ["Percival.Properties.C07"]
@@ -336,7 +338,9 @@ def classify(case, out):
 
 
 def components(ctx):
-    kw = dict(extra=EXTRA, ldflags=LDFLAGS, classify=classify, monitor_args=["netbufmon"])
+    # black-box fallback: no op needs white-box access (the two contract guards are kept by the harness itself) and neither
+    # file has state outside the reader/writer objects that `case` re-creates, so no bb_skip_ops and no bb_fresh
+    kw = dict(extra=EXTRA, ldflags=LDFLAGS, classify=classify, monitor_args=["netbufmon"], bb_ok=True, bb_srcs=BB_SRCS)
     return [
         vlib.Component("nbr", "h_netbuf.c", SRCS, ["netbuf"], gen_reader,
                        nontrivial=lambda c: any(o.startswith(("r_wait", "r_loop")) for o in c) and any(o.startswith("net_deliver") for o in c) and "spin" in c,
